@@ -239,6 +239,15 @@ pub fn check_case(c: &Case, st: &mut Stats, shard: usize) -> Check {
         }
     };
     sign_all(&mut tx, None);
+    // the untampered spend is validated once on a scratch copy (an admission check): whatever that leaves
+    // behind in the process must not change the verdict on the tampered copy
+    if c.tparam % 2 == 0 {
+        let mut scratch = w.cur.clone();
+        let pool = w.pool.clone();
+        let t0 = tx.clone();
+        let _ = crate::util::catch(|| pool.install(|| scratch.apply_tx(&t0)));
+        st.class("untampered-copy-dry-run-first");
+    }
     let tamper = match c.tamper % 16 {
         0..=6 => "none",
         7 => "sig-bit-flip",
